@@ -35,7 +35,8 @@ type loadOpts struct {
 	SkipDefaultValues      bool     `json:"skip_default_values,omitempty"`
 	DiscardEnvFiles        bool     `json:"discard_env_files,omitempty"`
 	Profiles               []string `json:"profiles,omitempty"`
-	ProjectName            string   `json:"project_name,omitempty"` // "" = "proj"
+	ProjectName            string   `json:"project_name,omitempty"`        // "" = "proj"
+	NameNotImperative      bool     `json:"name_not_imperative,omitempty"` // the name is only the caller's fallback
 }
 
 func optsFromBits(bits int) loadOpts {
@@ -66,7 +67,7 @@ func (o loadOpts) apply(lo *loader.Options) {
 	if name == "" {
 		name = "proj"
 	}
-	lo.SetProjectName(name, true)
+	lo.SetProjectName(name, !o.NameNotImperative)
 }
 
 // loadCase is a complete, JSON-serialisable loader input.
